@@ -69,7 +69,7 @@ def plan(tier, seed):
         kinds = {"random": 8000, "from_random": 600, "exact": 2500, "crowd": 4}
         per = 1000
     else:
-        kinds = {"random": 600000, "from_random": 20000, "exact": 150000, "crowd": 80}
+        kinds = {"random": 600000, "from_random": 20000, "exact": 150000, "crowd": 24}
         per = 15000
     return out + common.shards(kinds, per_shard=per, tier=tier, seed=seed)
 
